@@ -1055,6 +1055,8 @@ def trees(draw, types, dom, ran, depth, mode='c04', pairs=None,
         return node
     if rule == 'addvec':
         node['a'] = sub_full()
+        if mode == 'c06' and aliases_input(node['a']):
+            return node['a']        # region of known finding C04-K4
         node['v'] = draw(values(types, ran))
         node['how'] = draw(st.sampled_from(['A+v', 'v+A', 'A-v', 'v-A',
                                             'ctor']))
@@ -1064,6 +1066,8 @@ def trees(draw, types, dom, ran, depth, mode='c04', pairs=None,
         if not ran_space and child['fk'] != 'func':
             # plain operators with field range do not offer ``A + c``
             return child
+        if mode == 'c06' and ran_space and aliases_input(child):
+            return child            # region of known finding C04-K4
         node['a'] = child
         node['s'] = draw(scalars(tinfo(types, fkey_ran).cplx))
         node['how'] = draw(st.sampled_from(['A+c', 'c+A', 'A-c', 'c-A']))
@@ -1419,6 +1423,17 @@ def true_linear(node):
 
 
 EXTRA_LINEAR = {'broadcast', 'reduction', 'diagonal', 'pspaceop'}
+
+
+def aliases_input(node):
+    """The operator returns (a view of) its argument when called
+    out-of-place: RealPart / ImagPart and what merely forwards to them
+    (known finding C04-K4: OperatorVectorSum then modifies the argument)."""
+    if node['op'] in ('pos', 'pow'):
+        return aliases_input(node['a'])
+    if node['op'] == 'comp':
+        return aliases_input(node['a']) and aliases_input(node['b'])
+    return node['op'] == 'leaf' and node['kind'] in ('realpart', 'imagpart')
 
 
 NONHOLO_LEAVES = {'realpart', 'imagpart', 'cmod', 'cmodsq', 'norm', 'dist',
